@@ -45,7 +45,7 @@ def canon(v):
     if v[0] == "tup":
         return "(" + ", ".join(canon(x) for x in v[1]) + ")"
     if v[0] == "struct":
-        return "{" + ", ".join(f"{k}: {canon(x)}" for k, x in sorted(v[1].items())) + "}"
+        return "{" + ", ".join(f"{k}: {canon(x)}" for k, x in sorted(v[1].items()) if k != "__default__") + "}"
     if v[0] in ("obj", "variant"):
         return v[1]
     if v[0] == "str":
@@ -140,7 +140,8 @@ def equal(a, b):
     if a[0] == "tup":
         return len(a[1]) == len(b[1]) and all(equal(x, y) for x, y in zip(a[1], b[1]))
     if a[0] in ("struct", "match"):
-        return set(a[1]) == set(b[1]) and all(equal(a[1][k], b[1][k]) for k in a[1])
+        ka, kb = set(a[1]) - {"__default__"}, set(b[1]) - {"__default__"}
+        return ka == kb and all(equal(a[1][k], b[1][k]) for k in ka)
     if a[0] in ("obj", "str", "bool", "variant"):
         return a[1] == b[1]
     if a[0] == "some":
@@ -162,13 +163,14 @@ def _is_err(v):
 
 
 class Evaluator:
-    def __init__(self, prog, inline_prefixes=("svgdx::",), max_depth=4, opaque=(), presets=None, type_alias=None, watch=(), name_case=None, transparent=(), iflet=None, absent=()):
+    def __init__(self, prog, inline_prefixes=("svgdx::",), max_depth=4, opaque=(), presets=None, type_alias=None, watch=(), name_case=None, transparent=(), iflet=None, absent=(), present=None):
         self.prog = prog
         self.opaque = set(opaque)
         self.presets = presets or {}  # type -> value, for enum-typed selector locals (case specialisation)
         self.type_alias = type_alias or {}  # type -> symbolic object name for locals of that type whose value is unknown
         self.watch = set(watch)  # method / function names whose evaluated argument lists are recorded
         self.calls = []
+        self.present = set(present) if present is not None else None  # if given: exactly these attributes exist
         self.absent = set(absent)  # attribute names assumed absent (get_attr gives None); all others are assumed present
         self.iflet = iflet  # "then" / "else": branch taken by every `if let` whose scrutinee the domain cannot decide
         self.name_case = name_case  # element name assumed for matches over `self.name.as_str()`
@@ -270,6 +272,8 @@ class Evaluator:
         if p in ("tstruct", "path", "struct"):
             name = (pat.get("res") or {}).get("path", "").split("::")[-1]
             subs = pat.get("pats", [])
+            if name == "Ok" and len(subs) == 1 and val is not None and not (known and val[0] in ("err", "none", "some")):
+                return self._match_pat(subs[0], val, env)  # Ok(x) is x in this domain
             if name in ("Some", "Ok") and len(subs) == 1:
                 if known and val[0] == "some":
                     return self._match_pat(subs[0], val[1], env)
@@ -383,6 +387,18 @@ class Evaluator:
             if fty in self.presets:
                 return self.presets[fty]
             base = self.eval(n["x"], env, st)
+            if base is not None and not is_form(base) and base[0] == "struct" and n["name"] not in base[1] and "__default__" in base[1]:
+                ty = (n.get("ty") or "").strip()
+                if ty.startswith("std::option::Option<"):
+                    return ("none",)
+                if _scalar_ty(ty) and ty != "bool":
+                    return {}
+                if ty == "bool":
+                    return ("bool", False)
+                if ty.endswith("String"):
+                    return ("str", "")
+            if n["name"] == "name" and self.name_case is not None and base is not None and not is_form(base) and base[0] == "obj" and "String" in (n.get("ty") or ""):
+                return ("str", self.name_case)
             return self._as_scalar(self._field(base, n["name"]), n.get("ty"))
         if k == "Unary":
             if n["op"] in ("Deref",):
@@ -423,6 +439,8 @@ class Evaluator:
             base = self.eval(n["base"], env, st) if isinstance(n.get("base"), dict) else None
             if base is not None and not is_form(base) and base[0] == "struct":
                 out.update(base[1])
+            elif isinstance(n.get("base"), dict) and n["base"].get("k") in ("Call", "MethodCall") and (hirq.callee_path(n["base"]) if n["base"].get("k") == "Call" else n["base"].get("name", "")).split("::")[-1] == "default":
+                out["__default__"] = ("bool", True)
             for f in n["fields"]:
                 out[f["name"]] = self.eval(f["v"], env, st)
             return ("struct", out)
@@ -529,6 +547,30 @@ class Evaluator:
             if x is not None and not is_form(x) and x[0] == "match" and (is_form(y) or (y is not None and y[0] == "match")):
                 if is_form(y):
                     return ("match", {k: (self._binary(op, v, y) if left else self._binary(op, y, v)) for k, v in x[1].items()})
+        if a is not None and b is not None and not is_form(a) and not is_form(b):
+            if a[0] == "bool" or b[0] == "bool":
+                if op in ("And", "BitAnd"):
+                    if (a[0] == "bool" and not a[1]) or (b[0] == "bool" and not b[1]):
+                        return ("bool", False)
+                    if a[0] == "bool" and b[0] == "bool":
+                        return ("bool", True)
+                if op in ("Or", "BitOr"):
+                    if (a[0] == "bool" and a[1]) or (b[0] == "bool" and b[1]):
+                        return ("bool", True)
+                    if a[0] == "bool" and b[0] == "bool":
+                        return ("bool", False)
+            if a[0] == b[0] and a[0] in ("str", "bool", "variant") and op in ("Eq", "Ne"):
+                return ("bool", (a[1] == b[1]) == (op == "Eq"))
+        if a is not None and not is_form(a) and a[0] == "bool" and b is None:
+            if op in ("And", "BitAnd") and not a[1]:
+                return ("bool", False)
+            if op in ("Or", "BitOr") and a[1]:
+                return ("bool", True)
+        if b is not None and not is_form(b) and b[0] == "bool" and a is None:
+            if op in ("And", "BitAnd") and not b[1]:
+                return ("bool", False)
+            if op in ("Or", "BitOr") and b[1]:
+                return ("bool", True)
         if op in ("Eq", "Ne") and a is not None and b is not None and not (is_form(a) and is_form(b)):
             return atom(op.lower(), sorted([a, b], key=canon))
         if not (is_form(a) and is_form(b)):
@@ -566,6 +608,12 @@ class Evaluator:
     def _join(self, c, t, e):
         if is_form(c) and is_form(t) and is_form(e):
             return atom("ite", [c, t, e])
+        if t is not None and e is not None and not is_form(t) and not is_form(e) and t[0] == "struct" and e[0] == "struct":
+            out = {}
+            for k in set(t[1]) | set(e[1]):
+                a, b = t[1].get(k), e[1].get(k)
+                out[k] = a if (a is b or equal(a, b)) else (self._join(c, a, b) if (a is not None or b is not None) else None)
+            return ("struct", out)
         if t is None and e is None:
             return None
         return ("if", t, e)
@@ -741,9 +789,11 @@ class Evaluator:
             self.calls.append(dict(name=name, recv=recv, args=args, line=n.get("line")))
         if name in ("get", "get_attr", "pop", "pop_attr") and len(args) == 1 and args[0] is not None and not is_form(args[0]) and args[0][0] == "str" and ("AttrMap" in rty or "SvgElement" in rty):
             # reading an attribute: the value is the symbol @name (the attribute is assumed present unless listed absent)
-            if args[0][1] in self.absent:
+            if args[0][1] in self.absent or (self.present is not None and args[0][1] not in self.present):
                 return ("none",)
             return ("some", ("obj", "@" + args[0][1].replace("-", "_")))
+        if name == "has_attr" and len(args) == 1 and args[0] is not None and not is_form(args[0]) and args[0][0] == "str" and "SvgElement" in rty:
+            return ("bool", not (args[0][1] in self.absent or (self.present is not None and args[0][1] not in self.present)))
         if name in TRANSPARENT:
             return recv
         if name in ("to_string", "to_owned", "as_str") and recv is not None and not is_form(recv) and recv[0] == "str":
@@ -763,6 +813,8 @@ class Evaluator:
                 if name == "and_then":
                     return r
                 return ("some", r)
+        if name in ("is_some", "is_none") and recv is not None and not is_form(recv) and recv[0] in ("some", "none"):
+            return ("bool", (recv[0] == "some") == (name == "is_some"))
         if name == "transpose" and recv is not None and not is_form(recv) and recv[0] in ("some", "none"):
             return recv
         if name == "ok" and recv is not None and (is_form(recv) or recv[0] == "obj"):
@@ -857,7 +909,7 @@ def _is_name_scrut(n):
         n = n.get("recv") if n.get("k") == "MethodCall" else n.get("x")
         if n is None:
             return False
-    return n.get("k") == "Field" and n.get("name") == "name" and n["x"].get("k") == "Path" and (n["x"].get("res") or {}).get("local") == "self"
+    return n.get("k") == "Field" and n.get("name") == "name" and n["x"].get("k") == "Path" and (n["x"].get("res") or {}).get("local") is not None
 
 
 def _alts(pat):
